@@ -290,3 +290,23 @@ Close Scope Q_scope.
 
 Definition response_Q (g : grid) (d : list Q) (nsamp : Z) (p : nat) (k eps : Q) (x : list Q) : list Q :=
   response (smin_Q eps) (smax_Q p (invq_of p k) 0 0) 0%Q g d nsamp x.
+
+(* ------------------------------------------------------------------------------------------------ *)
+(* grid symmetries used to state equivariance in element coordinates (i, j, k)                       *)
+Definition get3 (t : Z * Z * Z) (pos : Z) : Z :=
+  match t with (a, b, c) => if pos =? 0 then a else if pos =? 1 then b else c end.
+Definition elemnumber3 (g : grid) (t : Z * Z * Z) : Z := match t with (i, j, k) => elemnumber g i j k end.
+Definition in_grid (g : grid) (t : Z * Z * Z) : Prop :=
+  match t with (i, j, k) => 0 <= i < nelx g /\ 0 <= j < nely g /\ 0 <= k < nz1 g end.
+(* mirror the design along one axis *)
+Definition mirror_el (g : grid) (axis : Z) (t : Z * Z * Z) : Z * Z * Z :=
+  set3 t axis (zth (size3 g) axis - 1 - get3 t axis).
+(* exchange two axes: the element (.., t[ax1], .., t[ax2], ..) goes to (.., t[ax2], .., t[ax1], ..) of the
+   grid with the two sizes exchanged (2-D grids stay 2-D: only x <-> y is possible there) *)
+Definition swap_el (ax1 ax2 : Z) (t : Z * Z * Z) : Z * Z * Z :=
+  set3 (set3 t ax1 (get3 t ax2)) ax2 (get3 t ax1).
+Definition swap_grid (g : grid) (ax1 ax2 : Z) : grid :=
+  match swap_el ax1 ax2 (nelx g, nely g, nz1 g) with
+  | (a, b, c) => {| nelx := a; nely := b; nelz := if nelz g =? 0 then 0 else c |}
+  end.
+Definition swap_axis (ax1 ax2 d : Z) : Z := if d =? ax1 then ax2 else if d =? ax2 then ax1 else d.
